@@ -66,6 +66,33 @@ CHECKS = {
             "Members unroutable stand-alone have no CIP reply to compare with; only a non-zero status and no effect is demanded. "
             "Lists longer than 3 (4 on a sub-alphabet in the thorough tier) are not enumerated.",
             "DESIGN.md §3 C07"),
+    "C02": ("fault_enumeration",
+            "exhaustive enumeration of stream chunkings (all 2-way, all 3-way of short streams, field-boundary neighbourhoods, "
+            "byte-wise, coalesced, injected empty recv answers) and of every truncation offset against the real server loop and "
+            "the real framing machine",
+            "Streams of 1..3 request frames are delivered to the real main.enip_srv_tcp loop under a scripted recv() in every "
+            "enumerated chunking; after EVERY chunk the replies sent so far must equal the replies to exactly the frames whose final "
+            "byte has been delivered and the tag store must equal the store after exactly those frames (so a request is acted upon iff "
+            "complete). Every truncation offset followed by EOF (also delivered byte-wise): no reply for and no effect of the "
+            "unfinished frame, the request processor never invoked on it (spy), connection closed, a parked older session and a new "
+            "session still read the right data. parser.enip_machine alone is fed the same chunkings through cpppo.chainable over an "
+            "instrumented iterator: identical parsed content and source.sent == sum(24+length) after every frame.",
+            "k-way splits beyond 3 arbitrary cuts are covered through the boundary-neighbourhood family and byte-at-a-time only; the "
+            "OS accept loop is outside the harness; the client-side framing (client.__next__) is exercised by C13's cut enumeration.",
+            "DESIGN.md §3 C02"),
+    "C06": ("model_checking",
+            "explicit-state BFS over session states (alive, registered, open connections, store) of the real server loop, every frame "
+            "from every state; all frame sequences up to a length in two deliveries; pipelined runs",
+            "The real main.enip_srv_tcp loop is driven frame by frame. BFS over canonical session states to closure: from every state "
+            "each of 26 frames (Register, List*, legacy, SendRRData with ok/refused reads and writes, attribute service, bundle, "
+            "wrapped fragmented read, unknown service/class/tag, small and large Forward Open, Forward Close, SendUnitData on the open "
+            "connection, wrong/zero session handles, malformed CPF, unsupported command, Unregister; 4 sender contexts). Oracle per "
+            "request: exactly one reply, same command/context/session, service|0x80 in the same framing, non-zero status for "
+            "unsupported/unroutable, session ends only for the listed reasons. All sequences up to length 2 (3 thorough) are also "
+            "written as ONE chunk before any reply is read: the reply stream must be byte-identical; runs of up to 64 pipelined "
+            "requests must be answered in order. Environment answers: randint 0 / duplicate, conn.send raising.",
+            "<= 2 open connections per session; contexts from 4 values; sequence length bound.",
+            "DESIGN.md §3 C06"),
     "C15": ("exploration",
             "complete product personality x request route path x service on freshly configured real simulators (UCMM subclass and "
             "main() argument parsing), access-counting Attribute class; exhaustive route-path text grammar vs reference parser",
